@@ -20,7 +20,7 @@ V(rule, disc, e) == [prop |-> "C19", rule |-> rule, disc |-> disc, case |-> e.ca
 Cls(p) == IF p < MinBackoff THEN "period<60" ELSE IF p = MinBackoff THEN "period=60" ELSE "period>60"
 
 S0 == [period |-> 0, runs |-> 0, running |-> FALSE, lastFinish |-> 0, lastOk |-> TRUE, nfail |-> 0, prevDelay |-> 0,
-       hupAt |-> -1, killAt |-> -1, exited |-> FALSE,
+       hupAt |-> -1, killAt |-> -1, killDue |-> -1, exited |-> FALSE,
        race |-> FALSE,       \* the last signal became ready in the same poll as the timer: either may be served first
        raceRun |-> FALSE]    \* ... and the timer was: one run started at that instant
 
@@ -28,11 +28,21 @@ Step(st, e) ==
   CASE e.ev = "reset" -> S0
     [] e.ev = "cfg" -> [st EXCEPT !.period = e.period]
     [] e.ev = "start" -> [st EXCEPT !.running = TRUE, !.raceRun = st.race /\ ~st.raceRun /\ (e.t = st.killAt \/ e.t = st.hupAt), !.race = FALSE,
-                                  !.prevDelay = IF st.runs = 0 \/ st.lastOk \/ st.hupAt >= 0 THEN 0 ELSE e.t - st.lastFinish,
+                                  (* the delay the next retry is compared with.  A run that was triggered by SIGHUP cut the  *)
+                                  (* delay before it short: the delay that was scheduled then is not known, but it was at    *)
+                                  (* least the one before (one minute after a first failure) - the streak of failures goes   *)
+                                  (* on over a SIGHUP, and so does the growth of the delay                                   *)
+                                  !.prevDelay = IF st.runs = 0 \/ st.lastOk THEN 0
+                                                ELSE IF st.hupAt >= 0 THEN (IF st.nfail = 1 THEN MinBackoff ELSE st.prevDelay)
+                                                ELSE e.t - st.lastFinish,
                                   (* a SIGHUP that raced with the timer may still be served after the timer's run *)
                                   !.hupAt = IF st.race /\ ~st.raceRun /\ e.t = st.hupAt THEN st.hupAt ELSE -1]
     [] e.ev = "finish" -> [st EXCEPT !.running = FALSE, !.runs = @ + 1, !.lastFinish = e.t, !.lastOk = e.ok,
-                                   !.nfail = IF e.ok THEN 0 ELSE @ + 1]
+                                   !.nfail = IF e.ok THEN 0 ELSE @ + 1,
+                                   (* a signal that arrived while this run was in progress is due now: SIGHUP - a run    *)
+                                   (* right behind this one; SIGINT / SIGTERM - exit (now, or when it arrived)           *)
+                                   !.hupAt = IF st.hupAt >= 0 THEN e.t ELSE @,
+                                   !.killDue = IF st.killAt >= 0 THEN e.t ELSE @]
     [] e.ev = "signal" -> LET r == "same_poll" \in DOMAIN e /\ e.same_poll IN
                           IF e.sig = "hup" THEN [st EXCEPT !.hupAt = e.t, !.race = r] ELSE [st EXCEPT !.killAt = e.t, !.race = r]
     [] e.ev = "exit" -> [st EXCEPT !.exited = TRUE]
@@ -56,7 +66,7 @@ LineViol(st, e) ==
     [] e.ev = "exit" ->
          (IF st.killAt < 0 THEN {V("ExitWithoutSignal", Cls(st.period), e)}
           ELSE IF st.raceRun /\ e.t = st.lastFinish THEN {}                            \* ... and the signal right after that run
-          ELSE IF e.t # st.killAt THEN {V("TerminationSignalNotPrompt", Cls(st.period), e)}
+          ELSE IF e.t # st.killAt /\ e.t # st.killDue THEN {V("TerminationSignalNotPrompt", Cls(st.period), e)}
           ELSE IF ~e.ok THEN {V("ExitNotClean", Cls(st.period), e)} ELSE {})
     [] e.ev = "end" ->
          (IF st.killAt >= 0 THEN {V("TerminationSignalIgnored", Cls(st.period), e)} ELSE {})
